@@ -50,7 +50,7 @@ Proof. intros vs. cbn. reflexivity. Qed.
    kind, path, size 0..6 and written position (finite domain, decided by evaluation) *)
 Definition all_kinds := [VKBoxed; VKOwned; VKRetry; VKRef].
 Definition all_paths := [PDrop; PIntoInner; PIntoChild; PLockThenIntoInner; PGetMut; PIntoIter; PIntoIterPartial; PFromIter;
-                         PExtend; PTryNewReject; PTryNewAccept; PRefColl; PDefault; PNestedIntoInner; PPoisonableIntoInner].
+                         PExtend; PTryNewReject; PTryNewAccept; PRefColl; PDefault; PNestedIntoInner; PPoisonableIntoInner; PDropUnw].
 Definition all_wpos := None :: map Some (seq 0 7).
 
 Definition c16_all : bool :=
